@@ -512,9 +512,9 @@ func checkC19(c *c19Case, r *vstat.Run) outcome {
 			r.JournalDone()
 		}
 		switch c.Static {
-		case "OnlyUnexported", "NoTags", "LeftRec", "DeepBad", "EmbedBadLater", "EmbedUnclosedLater":
+		case "OnlyUnexported", "NoTags", "LeftRec", "DeepBad", "EmbedBadLater", "EmbedUnclosedLater", "IfaceRoot", "AnyRoot":
 			expect, reason = tagMalformed, "no usable field / left recursion / unknown token type in a deeply embedded field"
-		case "Unexported", "Nested", "Rec", "EmbedSelf", "EmbedPair", "EmbedVal", "Deep", "Layers15", "Layers30", "EdgeLayers30":
+		case "Unexported", "Nested", "Rec", "EmbedSelf", "EmbedPair", "EmbedVal", "Deep", "Layers15", "Layers30", "EdgeLayers30", "NamedSliceRec", "NamedPtrRec", "UniNames":
 			expect = tagValid
 		}
 		if strings.HasPrefix(c.Static, "example:") {
@@ -650,8 +650,58 @@ type (
 	c19E30 = c19EdgeLayer[c19EdgeLayer[c19EdgeLayer[c19EdgeLayer[c19EdgeLayer[c19E25]]]]]
 )
 
+// recursion through *declared* slice and pointer types
+type c19Nodes []*c19Node
+type c19Node struct {
+	Name string   `@Ident`
+	Kids c19Nodes `( "(" @@* ")" )?`
+}
+type c19Ref *c19Chain
+type c19Chain struct {
+	Name string `@Ident`
+	Next c19Ref `( "." @@ )?`
+}
+
+// token types whose names are not ASCII
+var c19UniLex = lexer.MustSimple([]lexer.SimpleRule{
+	{Name: "Größe", Pattern: `[0-9]+`}, {Name: "Ключ", Pattern: `[a-z]+`}, {Name: "Név2", Pattern: `[A-Z]+`}, {Name: "数", Pattern: `#`},
+	{Name: "Punct", Pattern: `[-+=;()]`}, {Name: "ws", Pattern: `\s+`},
+})
+
+type c19UniNames struct {
+	A string   `@Ключ "=" ( @Größe | @Név2 )`
+	B []string `( ~数 | "x":Név2 )* (?= 数 )? @数?`
+}
+
 func buildStatic(name string) (bool, error) {
 	switch name {
+	case "NamedSliceRec":
+		p, err := participle.Build[c19Node]()
+		if err == nil {
+			v, perr := p.ParseString("", "a ( b ( c ) d )")
+			if perr != nil || len(v.Kids) != 2 {
+				return false, fmt.Errorf("grammar recursive through a declared slice type built but does not parse its own language: %v", perr)
+			}
+		}
+		return p != nil, err
+	case "NamedPtrRec":
+		p, err := participle.Build[c19Chain]()
+		return p != nil, err
+	case "UniNames":
+		p, err := participle.Build[c19UniNames](participle.Lexer(c19UniLex))
+		if err == nil {
+			v, perr := p.ParseString("", "ab = 12 ; X #")
+			if perr != nil || v.A != "ab12" {
+				return false, fmt.Errorf("grammar over token types with non-ASCII names built but does not parse its own language: %v %+v", perr, v)
+			}
+		}
+		return p != nil, err
+	case "IfaceRoot":
+		p, err := participle.Build[fmt.Stringer]()
+		return p != nil, err
+	case "AnyRoot":
+		p, err := participle.Build[any]()
+		return p != nil, err
 	case "EdgeLayers30":
 		p, err := participle.Build[c19E30]()
 		if err == nil {
@@ -759,7 +809,7 @@ func buildStatic(name string) (bool, error) {
 	return false, fmt.Errorf("harness: unknown static type")
 }
 
-var c19Statics = []string{"Rec", "Unexported", "OnlyUnexported", "NoTags", "Nested", "WithIface", "MapField", "ChanField", "LeftRec", "string", "*Rec", "[]Rec", "map", "any", "EmbedSelf", "EmbedPair", "EmbedVal", "Deep", "DeepBad", "EmbedBadLater", "EmbedUnclosedLater", "ParseableVal", "ParseIface", "SelfSlice", "SelfPtrSlice", "Layers15", "Layers30", "EdgeLayers30"}
+var c19Statics = []string{"Rec", "Unexported", "OnlyUnexported", "NoTags", "Nested", "WithIface", "MapField", "ChanField", "LeftRec", "string", "*Rec", "[]Rec", "map", "any", "EmbedSelf", "EmbedPair", "EmbedVal", "Deep", "DeepBad", "EmbedBadLater", "EmbedUnclosedLater", "ParseableVal", "ParseIface", "SelfSlice", "SelfPtrSlice", "Layers15", "Layers30", "EdgeLayers30", "NamedSliceRec", "NamedPtrRec", "UniNames", "IfaceRoot", "AnyRoot"}
 
 func describeC19(c *c19Case) string {
 	if c.Grammar != nil {
